@@ -53,6 +53,7 @@ type Unit struct {
 	iterLists    []string
 	condAxioms   []condAxiom
 	lastRawArgs  []Value
+	selfInvKey   string // receiver type with an object invariant (methods of T)
 }
 
 // condAxiom is a quantified definitional axiom that is only added to obligations in which the symbol is applied to a bound variable.
